@@ -38,6 +38,8 @@ type syncRec struct {
 	n       int64
 	I       int64
 	do      []int64
+	darg    []int64 // the correction handed to adj.Do
+	starts  []int64 // start of every iteration begun so far
 	sleep   []int64
 	dur     []int64
 	inv     [][2][]int64
@@ -54,13 +56,14 @@ func (c syncClock) Epoch() uint64                              { return 0 }
 func (c syncClock) Now() time.Time                             { return time.Unix(0, 0) }
 func (c syncClock) Step(time.Duration)                         {}
 func (c syncClock) Adjust(time.Duration, time.Duration, float64) {}
-func (c syncClock) Drift(d time.Duration) time.Duration        { return d/100000 + 1 }
+func (c syncClock) Drift(d time.Duration) time.Duration        { return 1 << 50 } // no correction is ever clamped
 func (c syncClock) Sleep(d time.Duration) {
 	k := c.r.round.Load()
 	c.r.mu.Lock()
 	if k < c.r.n {
 		c.r.sleep[k], c.r.dur[k] = c.r.now(), int64(d)
 	}
+	c.r.starts = append(c.r.starts, c.r.now()+int64(d))
 	c.r.mu.Unlock()
 	if c.r.round.Add(1) >= c.r.n {
 		close(c.r.release) // clocks that never return are let go: the scenario is over
@@ -71,11 +74,11 @@ func (c syncClock) Sleep(d time.Duration) {
 
 type syncAdj struct{ r *syncRec }
 
-func (a syncAdj) Do(time.Duration) {
+func (a syncAdj) Do(corr time.Duration) {
 	k := a.r.round.Load()
 	a.r.mu.Lock()
 	if k < a.r.n {
-		a.r.do[k] = a.r.now()
+		a.r.do[k], a.r.darg[k] = a.r.now(), int64(corr)
 	}
 	a.r.mu.Unlock()
 }
@@ -88,14 +91,22 @@ type syncSource struct {
 }
 
 func (s *syncSource) MeasureClockOffset(ctx context.Context) (time.Time, time.Duration, error) {
-	k := s.r.round.Load()
+	// which iteration this call belongs to is decided by the instant of the call, not by a
+	// counter: with SyncTimeout 0 an iteration can be over before its clocks' goroutines first run
+	s.r.mu.Lock()
+	k := int64(0)
+	for i, st := range s.r.starts {
+		if st <= s.r.now() {
+			k = int64(i)
+		}
+	}
 	if k >= s.r.n {
+		s.r.mu.Unlock()
 		return time.Time{}, 0, errClock
 	}
-	sc := s.spec.rounds[k][s.set][s.idx]
-	s.r.mu.Lock()
 	s.r.inv[k][s.set][s.idx] = s.r.now()
 	s.r.mu.Unlock()
+	sc := s.spec.rounds[k][s.set][s.idx]
 	t, e := time.Duration(sc.t), time.Duration(sc.e)
 	switch sc.kind {
 	case 0:
@@ -119,16 +130,12 @@ func (s *syncSource) MeasureClockOffset(ctx context.Context) (time.Time, time.Du
 	s.r.mu.Lock()
 	s.r.comp[k][s.set][s.idx] = s.r.now()
 	s.r.mu.Unlock()
-	var err error
-	if !sc.ok {
-		err = errClock
-	}
-	return time.Unix(0, sc.ts), time.Duration(sc.off), err
+	return toTime(sc.ts), time.Duration(sc.off), scriptErr(ctx, sc)
 }
 
 func runSync(tags string, sp *syncSpec) {
 	n := len(sp.rounds)
-	rec := &syncRec{n: int64(n), I: sp.I, do: make([]int64, n), sleep: make([]int64, n), dur: make([]int64, n),
+	rec := &syncRec{n: int64(n), I: sp.I, do: make([]int64, n), darg: make([]int64, n), starts: []int64{0}, sleep: make([]int64, n), dur: make([]int64, n),
 		inv: make([][2][]int64, n), comp: make([][2][]int64, n)}
 	for k := 0; k < n; k++ {
 		rec.do[k], rec.sleep[k], rec.dur[k] = -1, -1, -1
@@ -187,7 +194,7 @@ func runSync(tags string, sp *syncSpec) {
 		if rec.do[k] < 0 { // the iteration was never completed (only when the code under test hangs)
 			break
 		}
-		obs = append(obs, lib.L(lib.I(start), lib.I(rec.do[k]), lib.I(rec.sleep[k]), lib.I(rec.dur[k]),
+		obs = append(obs, lib.L(lib.I(start), lib.I(rec.do[k]), lib.I(rec.darg[k]), lib.I(rec.sleep[k]), lib.I(rec.dur[k]),
 			lib.IL(rec.inv[k][0]), lib.IL(rec.comp[k][0]), lib.IL(rec.inv[k][1]), lib.IL(rec.comp[k][1])))
 		start = rec.sleep[k] + rec.dur[k]
 	}
@@ -198,8 +205,11 @@ func runSync(tags string, sp *syncSpec) {
 }
 
 func genSync(r *lib.Rng) {
-	T := lib.Pick(r, int64(1), 2, 5, r.Range(3, 60), r.Range(10, 2000), r.Range(10, 2000), 1000000000)
-	I := 2*T + lib.Pick(r, int64(0), 0, 1, r.Range(0, 3*T))
+	T := lib.Pick(r, int64(0), 1, 2, 5, r.Range(3, 60), r.Range(10, 2000), r.Range(10, 2000), 1000000000)
+	I := 2*T + lib.Pick(r, int64(0), 0, 1, r.Range(0, 3*T)) // often T = I/2, the admissible maximum
+	if I == 0 {
+		I = r.Range(1, 50)
+	}
 	nref, npeer := r.Intn(5), r.Intn(5)
 	if r.Intn(6) == 0 {
 		nref = 0
@@ -216,14 +226,20 @@ func genSync(r *lib.Rng) {
 		for set, m := range []int{nref, npeer} {
 			for i := 0; i < m; i++ {
 				s := genClock(r, T, int64(10*set+i))
+				if T == 0 && r.Intn(2) == 0 {
+					s.kind, s.t = lib.Pick(r, int64(0), 3, 4), r.Range(1, 30) // blocked when the round has no time at all
+				}
 				if r.Intn(8) == 0 { // beyond the next iteration's start
 					s.kind, s.t = lib.Pick(r, int64(0), 3), I+r.Range(0, I)
 				}
-				if shape == 0 || (shape == 1 && set == 0) || (shape == 2 && set == 1) {
+				if T > 0 && (shape == 0 || (shape == 1 && set == 0) || (shape == 2 && set == 1)) {
 					s.kind, s.t = 0, r.Range(0, T-1)
 				}
 				if s.kind == 1 && max0(s.t) == T {
 					s.e = 0
+				}
+				if r.Intn(3) != 0 { // small offsets around zero, so that the midpoints differ visibly
+					s.off = r.Range(-40, 40) * 1000
 				}
 				c := ctime(T, s)
 				switch {
@@ -238,7 +254,15 @@ func genSync(r *lib.Rng) {
 				rd[set] = append(rd[set], s)
 			}
 		}
+		normalise(rd[0])
+		normalise(rd[1])
 		sp.rounds = append(sp.rounds, rd)
+	}
+	if T == 0 {
+		tags["t0"] = true
+	}
+	if I == 2*T {
+		tags["tmax"] = true
 	}
 	if nref == 0 {
 		tags["noref"] = true
@@ -290,5 +314,8 @@ func syncCorpus() {
 	// no sources at all; only peers; only reference clocks
 	runSync("noref,nopeer,alltimely", &syncSpec{T: 10, I: 20, rounds: [][2][]script{{nil, nil}, {nil, nil}}})
 	runSync("noref,alltimely", &syncSpec{T: 10, I: 25, rounds: [][2][]script{{nil, {ok(0, 3, 0, 10), ok(0, 9, 0, 11)}}}})
+	// SyncTimeout 0 with blocked sources: the iteration still ends at once
+	runSync("t0,slowref,slowpeer,never,nt", &syncSpec{T: 0, I: 7, rounds: [][2][]script{
+		{{ok(4, 0, 0, 0), ok(0, 9, 0, 1)}, {ok(3, 20, 0, 10)}}, {{ok(0, 0, 0, 0), ok(0, 9, 0, 1)}, {ok(2, 0, 3, 10)}}}})
 	runSync("nopeer,slowref,never,nt", &syncSpec{T: 10, I: 25, rounds: [][2][]script{{{ok(4, 0, 0, 0), ok(0, 9, 0, 1)}, nil}}})
 }
